@@ -62,10 +62,12 @@ Record dict_ops (D : Type) := mkDictOps {
 Arguments do_lookup {D}. Arguments do_user_lookup {D}. Arguments do_add {D}.
 Arguments do_update {D}. Arguments do_remove {D}.
 
-Definition conv_fn := composition -> nat -> list interval.
 
 (* ---- options ---- *)
 Inductive engine_kind := EngSimple | EngChewing | EngFuzzy.
+
+(* the conversion: what the installed engine answers for the current dictionary and buffer, asked for its n-th alternative *)
+Definition conv_fn (D : Type) := D -> engine_kind -> composition -> nat -> list interval.
 
 Record options := mkOpts {
   o_easy_symbol : bool;
@@ -376,7 +378,7 @@ Definition obind {A B} (r : outcome A) (f : A -> outcome B) : outcome B :=
 Notation "'do' x <- r ; k" := (obind r (fun x => k)) (at level 200, x pattern, r at level 100, k at level 200).
 
 Section WithParams.
-Context {D SY : Type} (dops : dict_ops D) (sops : syl_ops SY) (conv : conv_fn).
+Context {D SY : Type} (dops : dict_ops D) (sops : syl_ops SY) (conv : conv_fn D).
 
 Definition shared' := shared D SY.
 Definition editor' := editor D SY.
@@ -405,7 +407,7 @@ Definition set_engine (s : shared') (e : engine_kind) : shared' :=
 Definition with_com (s : shared') (r : outcome comp_editor) : outcome shared' :=
   do c <- r; Ok (set_com s c).
 
-Definition conversion (s : shared') : list interval := conv (inner (com s)) (nth s).
+Definition conversion (s : shared') : list interval := conv (dict s) (engine s) (inner (com s)) (nth s).
 Definition display (s : shared') : list N := display_of (conversion s).
 
 (* CompositionEditor::clear as the source has it: composition, cursor AND the saved cursors
